@@ -75,21 +75,23 @@ func (mapVacuum *MapVacuum[K, V]) vacuumInBackground() {
 }
 
 func (mapVacuum *MapVacuum[K, V]) vacuum() {
-	// entries is appended to by VacuumKey under entriesMutex, so the whole pass
-	// (reading the entries and cutting off the vacuumed prefix) holds it too.
-	// Lock order is entriesMutex -> mapMutex; VacuumKey is never called with
-	// mapMutex held.
-	mapVacuum.entriesMutex.Lock()
-	defer mapVacuum.entriesMutex.Unlock()
+	// entries is appended to by VacuumKey under entriesMutex. The pass works on a
+	// snapshot of the slice taken under that mutex: VacuumKey only appends, so the
+	// elements below the snapshot's length never change, and only this pass cuts
+	// the front off. entriesMutex is not held while mapMutex is taken: callers may
+	// call VacuumKey with mapMutex held (concurrency.Limiter.TryTakeSlot does).
+	mapVacuum.entriesMutex.RLock()
+	mapVacuumEntries := mapVacuum.entries
+	mapVacuum.entriesMutex.RUnlock()
 
-	if len(mapVacuum.entries) == 0 {
+	if len(mapVacuumEntries) == 0 {
 		return
 	}
 
 	deleteUntil := 0
 	now := mapVacuum.clock.Now()
 	mapVacuum.mapMutex.Lock()
-	for _, entry := range mapVacuum.entries {
+	for _, entry := range mapVacuumEntries {
 		if entry.vacuumAt.Before(now) {
 			delete(mapVacuum.mapToVacuum, entry.keyToVacuum)
 			deleteUntil++
@@ -99,7 +101,9 @@ func (mapVacuum *MapVacuum[K, V]) vacuum() {
 	}
 	mapVacuum.mapMutex.Unlock()
 
+	mapVacuum.entriesMutex.Lock()
 	mapVacuum.entries = mapVacuum.entries[deleteUntil:]
+	mapVacuum.entriesMutex.Unlock()
 	if deleteUntil > 0 {
 		log.Trace().
 			Msgf("vacuum (%s) vacuumed %d entries", mapVacuum.name, deleteUntil)
